@@ -79,7 +79,9 @@ def step (d : D) (ws : List String) : D × String :=
       match ArgoVerif.Model.RankConc.step d.s e with
       | some s' =>
         let opn := match e with | .call _ op => opName op | _ => opName (d.s.op a)
-        let key := s!"{ws.head!}@{repr (d.s.pc a)}/{opn}"
+        let arg := match e with | .tas _ o => (if o then "1" else "0") | .spinLoad _ v => (if v then "1" else "0") | _ => ""
+        let pcn := ((toString (repr (d.s.pc a))).splitOn ".").getLast!
+        let key := s!"{ws.head!}{arg}@{pcn}/{opn}"
         let seen := if d.seen.contains key then d.seen else key :: d.seen
         let d' := { d with s := s', n := d.n + 1, seen := seen }
         match snap with
